@@ -65,3 +65,17 @@ CHECKS["C06"] = {
   "text": "Every awkward value at every cell position is serialised, parsed again and compared cell by cell incl. masks; container histories (set/get/del/pop/setdefault/update/in/len/iter/keys/items/==/serialize/re-parse) are explored breadth-first to depth 4 (quick) / 5 (thorough) with laziness flags in the canonical state, each step compared with a dict model. ~730 k cases and ~386 k transitions quick.",
   "note": "Trusts the dict model and the table oracle in props/c06.py; BinaryCIF equality after a write is EITHER (encoding objects take part in __eq__). Multi-line values with blank/indented/'#'/'_'/reserved-word inner lines are recorded known findings (tokenizer restructuring).",
 }
+CHECKS["C12"] = {
+  "engine": "E2-input-enumerator",
+  "technique": "complete enumeration of FASTA headers/sequences, FASTQ score tuples over the full printable range x offsets x wrapping widths, GenBank location atoms/joins/qualifier sets/ORIGIN lengths, GFF3 entries and attributes; explicit-state exploration to fixpoint of edit histories on the four file classes against dict/list models and the re-parsed text",
+  "ref": "DESIGN.md section 4 C12; notes/C12.md",
+  "text": "Every case is written with the real writer, the text parsed from scratch and compared with the input at the read / read_iter / write_iter / typed get_*/set_* levels (1.6 M cases quick, 7.0 M thorough). Edit histories (set/replace/insert at every index/append/delete) on FastaFile, FastqFile, GenBankFile and GFFFile are explored breadth-first to their fixpoint under an entry-count bound (12 k states / 537 k transitions quick): after every edit the live view must equal the model and the view parsed back from the written text.",
+  "note": "Trusts the models in props/c12.py; LOCUS metadata, GFF type strings with '%'/tab, GenBankFile indices below -len and fields with empty content are EITHER/outside the statement.",
+}
+CHECKS["C18"] = {
+  "engine": "E2-input-enumerator",
+  "technique": "complete enumeration of labelled graphs on 1-4 atoms x single/pair deviations (bond types, charges, elements, coordinate ladder), charged subsets, the 998-1001 size switch, header/metadata/record-name spaces, and the RDKit bridge, against an independent strict CTfile/SDF reader",
+  "ref": "DESIGN.md section 4 C18; notes/C18.md",
+  "text": "Every molecule in the bound is written as MOL and SDF in V2000/V3000/auto, the text checked by an independent strict reader (fixed columns, M  CHG entries, V3000 blocks, SD framing) and read back by biotite; values that do not fit V2000 columns must select V3000 or raise; header/metadata/record names must survive; stacks go through to_mol/from_mol as conformers. ~491 k cases quick, ~3.0 M thorough.",
+  "note": "Trusts mc/models/ctfile.py (written from the CTfile specification) and RDKit's own reader as a second opinion where it is reliable; stripping of metadata value lines is counted as an unspecified normalisation.",
+}
